@@ -69,6 +69,8 @@ type v20World struct {
 	provLogger *zap.Logger
 	hosts      map[string]component.Host // component key -> the host it was started with (guarded by mu)
 	syncFatal  atomic.Bool               // the exporter's Start reports FatalError itself, synchronously
+	watchOut   atomic.Int64              // provider goroutines currently inside the resolver's watcher func
+	watchPanic atomic.Int64              // ... whose call panicked (send on the channel closed by provider shutdown)
 	fatalSent  atomic.Int64              // goroutines that entered componentstatus.ReportStatus(FatalError)
 	fatalBack  atomic.Int64              // ... and came back from it
 	wedged     bool // the Run goroutine is stuck for good: do not wait for it
@@ -482,6 +484,32 @@ func (w *v20World) postWatch(isErr bool) (ok bool) {
 	return true
 }
 
+// notify: a goroutine of the provider calls the WatcherFunc the REAL confmap.Resolver gave it (Resolver.onChange: a blocking
+// send on the resolver's channel of capacity 1). Logged as `wsent ok|err` when the goroutine is started.
+func (w *v20World) notify(isErr bool) {
+	w.logf("wsent %s", map[bool]string{false: "ok", true: "err"}[isErr])
+	w.watchOut.Add(1)
+	go func() {
+		defer w.watchOut.Add(-1)
+		if !w.postWatch(isErr) {
+			w.watchPanic.Add(1)
+		}
+	}()
+}
+
+// drainWatch releases provider goroutines still blocked in the watcher func after Run returned without shutting the
+// providers down (failed reload): the harness receives what they are trying to send.
+func (w *v20World) drainWatch() {
+	deadline := time.Now().Add(2 * time.Second)
+	for w.watchOut.Load() > 0 && time.Now().Before(deadline) {
+		select {
+		case <-w.col.configProvider.Watch():
+		default:
+			time.Sleep(50 * time.Microsecond)
+		}
+	}
+}
+
 // obs is the canonical observable state, compared exactly with the model in det cases.
 func (w *v20World) obs() string {
 	w.mu.Lock()
@@ -546,6 +574,9 @@ func (w *v20World) cleanup() {
 		case <-time.After(5 * time.Second):
 		}
 	}
+	if !w.wedged {
+		w.drainWatch()
+	}
 	w.bg.Wait()
 }
 
@@ -562,8 +593,10 @@ type v20Det struct {
 	atG  int
 	sdIs string // what the parked exporter Shutdown belongs to: old | new | final
 	// pending events as the harness knows them
-	pendWatch  int // 0/1 (the resolver's channel has capacity 1)
-	pendWErr   bool
+	// provider notifications sent and not yet received by the select: one sits in the resolver's channel (capacity 1), the
+	// others are provider goroutines blocked in the send — none may be lost
+	pendWatchOk  int
+	pendWatchErr int
 	sigs       []syscall.Signal
 	pendAsync  int
 	pendFatal  int // fatal-error hand-overs of the live service still waiting (abandoned when that service shuts down)
@@ -577,6 +610,9 @@ type v20Det struct {
 	multi      int // select with >= 2 ready branches
 	nops       int
 	bad        bool
+	lostWatchErr bool // the history ended with Run not returned although an error notification was outstanding
+	watchErrSent int // error notifications sent by provider goroutines
+	watchBursts  int // notifications sent while another one was still outstanding
 	fatals  int // fatal errors reported through the real host
 	// FatalError is terminal in the status FSM: a second report by the same component instance is an invalid transition
 	fatalUsed map[int]bool
@@ -586,7 +622,7 @@ type v20Det struct {
 }
 
 func (d *v20Det) ready() int {
-	n := d.pendWatch + d.pendAsync + d.pendFatal
+	n := d.pendWatchOk + d.pendWatchErr + d.pendAsync + d.pendFatal
 	if len(d.sigs) > 0 {
 		n++
 	}
@@ -684,11 +720,17 @@ func (d *v20Det) external(kind int) {
 		d.sigs = append(d.sigs, syscall.SIGTERM)
 		d.emit("post term", d.stable())
 	case 5, 6:
-		if !w.postWatch(kind == 6) {
-			d.bad = true
-			return
+		w.notify(kind == 6)
+		if kind == 6 {
+			d.pendWatchErr++
+			d.watchErrSent++
+		} else {
+			d.pendWatchOk++
 		}
-		d.pendWatch, d.pendWErr = 1, kind == 6
+		if d.pendWatchOk+d.pendWatchErr > 1 {
+			d.watchBursts++
+		}
+		time.Sleep(200 * time.Microsecond) // let the provider goroutine reach the channel (buffered, or blocked behind it)
 		d.emit(map[bool]string{false: "post watch", true: "post watcherr"}[kind == 6], d.stable())
 	case 7:
 		w.postAsync()
@@ -726,9 +768,13 @@ func (d *v20Det) canExternal(kind int) bool {
 		return true
 	case 3, 4: // the signal channel has capacity 3; nobody reads it after Run returned
 		return len(d.sigs) < 3 && d.at != "done"
-	case 5, 6: // watch notification (ok / error): a provider notifies at most once per Retrieve, never after its Shutdown
-		return !(d.pendWatch > 0 || len(w.col.configProvider.Watch()) > 0 || d.at == "idle" || d.at == "done" || d.at == "prov" ||
-			(d.at == "sd" && d.sdIs == "final") || (d.at == "sel" && d.sdIs == "final") || d.at == "retrieve")
+	case 5, 6: // watch notification (ok / error) from a provider goroutine: up to 3 outstanding; never before the first Retrieve,
+		// never once the run is committed to the provider's Shutdown
+		w.mu.Lock()
+		haveWatcher := w.watcher != nil
+		w.mu.Unlock()
+		return haveWatcher && d.pendWatchOk+d.pendWatchErr < 3 && !(d.at == "idle" || d.at == "done" || d.at == "prov" ||
+			(d.at == "sd" && d.sdIs == "final") || (d.at == "sel" && d.sdIs == "final"))
 	case 7:
 		return d.at != "done" && d.pendAsync < 2
 	case 8:
@@ -770,9 +816,9 @@ func (d *v20Det) afterSelect() {
 	switch branch {
 	case "reload": // directly "Config updated": the watch channel delivered nil
 		branch = "watch"
-		d.pendWatch = 0
+		d.pendWatchOk--
 	case "watcherr":
-		d.pendWatch = 0
+		d.pendWatchErr--
 	case "async":
 		if d.pendAsync > 0 {
 			d.pendAsync--
@@ -965,6 +1011,11 @@ func (d *v20Det) runCase(budget int, corpus []string) {
 	if d.at != "done" {
 		d.bad = true
 	}
+	if d.bad && !w.returned() {
+		// judged NOW, before cleanup cancels the context: the history is over and Run has not returned
+		w.logf("wedged")
+		d.lostWatchErr = d.pendWatchErr > 0
+	}
 }
 
 func TestVerifC20RunLoop(t *testing.T) {
@@ -982,6 +1033,11 @@ func TestVerifC20RunLoop(t *testing.T) {
 		{"go", "go", "go", "hup", "fatal", "go", "go", "go", "go"},
 		// two components fail fatally at once: the first report stops the collector, the second arrives during shutdown
 		{"go", "go", "go", "fatal", "go", "fatal", "go", "go"},
+		// round-7 seed 1: while the collector is busy starting, the provider notifies a change and then a watch ERROR;
+		// the error sits behind the unconsumed change and must not be lost: reload, then stop on the error
+		{"go", "go", "watch", "watcherr", "go"},
+		// the same while a reload is in progress (SIGHUP taken, old service shutting down)
+		{"go", "go", "go", "hup", "go", "watch", "watch", "watcherr", "go"},
 	}
 	timeouts := 0
 	for _, c := range vCases(n) {
@@ -1007,10 +1063,14 @@ func TestVerifC20RunLoop(t *testing.T) {
 		out.Linef("stat multi_ready_selects %d", d.multi)
 		out.Linef("stat ops %d", d.nops)
 		out.Linef("stat fatal_reports_through_real_host %d", d.fatals)
+		out.Linef("stat watch_notifications_behind_an_outstanding_one %d", d.watchBursts)
+		out.Linef("stat watch_senders_panicked_at_provider_shutdown %d", w.watchPanic.Load())
 		out.Linef("stat signals_dropped_at_capacity %d", d.sigDropped)
 		if d.bad {
 			out.Linef("stat harness_timeouts 1")
-			if w.fatalSent.Load() > w.fatalBack.Load() {
+			if d.lostWatchErr {
+				out.Linef("viol sig=C20/runloop/watch-error-notification-lost state=%s: a provider sent an error notification, the run loop never acted on it (Run has not returned)", w.col.GetState())
+			} else if w.fatalSent.Load() > w.fatalBack.Load() {
 				out.Linef("viol sig=C20/runloop/run-wedged-while-fatal-error-report-pending state=%s: a component's FatalError report has not come back and the Run goroutine stopped making progress", w.col.GetState())
 			} else {
 				out.Linef("viol sig=C20/harness/run-goroutine-did-not-reach-expected-point at=%s", d.at)
